@@ -72,7 +72,7 @@ theorem interp_mono {s : List Rat} (hs : SortedR s) {h h' : Rat} (h0 : 0 ≤ h) 
 
 
 theorem nth_clamp (s : List Rat) (i : Nat) : nth s i = nth s (min i (s.length - 1)) := by
-  simp [nth, Nat.min_assoc]
+  simp [nth]
 
 theorem nth_le_last {s : List Rat} (hs : SortedR s) (i : Nat) : nth s i ≤ nth s (s.length - 1) := by
   rw [nth_clamp s i]; exact nth_mono hs (Nat.min_le_right _ _)
